@@ -120,6 +120,11 @@ def gen_cases(rng, ctx):
         status = rng.choice([200, 200, 200, 404, 301, 500, 204, 304])
         reason = {200: "OK", 404: "Not Found", 301: "Moved", 500: "Oops", 204: "No Content", 304: "Not Modified"}[status]
         data = bytes(rng.bytes(rng.choice([0, 1, 11, 40, 300])))
+        # through the real endpoint, every fourth exchange has a body far larger than the window the client grants
+        # (the endpoint has to wait for credit while the request stream is already finished)
+        big = front and (i % 4 == 0)
+        if big:
+            data = bytes(rng.bytes(rng.choice([70000, 200000])))
         mode = rng.choice(["cl", "chunked", "close"])
         resp_hs = [("Content-Type", "text/plain"), ("X-Custom", "a, b")]
         if rng.chance(1, 3):
@@ -151,11 +156,14 @@ def gen_cases(rng, ctx):
         head = ("HTTP/1.1 %d %s\r\n" % (status, reason)).encode() + b"".join(("%s: %s\r\n" % (a, b)).encode() for a, b in resp_hs) + b"\r\n"
         stream = pre + head + wire_body + trailing
         style = rng.choice(["whole", "1cut", "2cut", "3cut", "crlf", "bytes" if len(stream) < 400 else "3cut"])
+        if len(stream) > 5000 and style == "crlf":
+            style = "3cut"
         sizes = cuts(rng, len(stream), style, stream)
         acc = accepts(rng, rng.choice(["all", "all", "one", "random"])) if not front else []
         toks = [[version, 1], list(method.encode()), list(uri.encode()), flat(req_hs), sum(([len(c)] + list(c) for c in body_chunks), []),
                 list(stream), sizes, acc]
-        impl = line("c17_run", toks) if not front else line("c17_front", [[version]] + toks[1:7])
+        window, pause = (rng.choice([4096, 8192, 16384]), rng.choice([0, 1])) if (front and big) else (0, 0)
+        impl = line("c17_run", toks) if not front else line("c17_front", [[version, window, pause]] + toks[1:7])
         # expectations
         dechunk = mode == "chunked" and version >= 2
         if bodiless:
@@ -200,6 +208,18 @@ def gen_cases(rng, ctx):
                           meta={"method": method, "path": path, "exp_req_hs": exp_req_hs, "fwd_body": list(fwd_body), "declared": declared,
                                 "version": version, "status": status, "interim": interim, "exp_hs": exp_hs, "exp_body": list(exp_body),
                                 "complete": complete, "trailing": bool(trailing), "sizes": sizes[:12], "acc": acc[:12], "mode": mode}))
+    # the window boundary: an HTTP/3 client grants 4096 bytes and goes silent for 400 ms; the origin's body arrives in equal
+    # pieces whose size is swept, so that for some sizes a piece fills the window to the last bytes and the next write finds no room
+    for p_ in (range(40, 104, 2) if thorough else range(40, 104, 4)):
+        body = bytes((k * 7) & 255 for k in range(9000))
+        head = b"HTTP/1.1 200 OK\r\nContent-Length: %d\r\n\r\n" % len(body)
+        stream = head + body
+        sizes = [len(head)] + [p_] * (len(body) // p_ + 1)
+        impl = line("c17_front", [[3, 4096, 0, 400], list(b"GET"), list(b"http://@A/p"), flat([("accept", "*/*")]), [], list(stream), sizes])
+        cases.append(Case(impl, None, kind="endpoint:window-boundary:h3", nontrivial=True,
+                          meta={"method": "GET", "path": "/p", "exp_req_hs": sorted([("accept", "*/*"), ("host", "@A")]), "fwd_body": [], "declared": None,
+                                "version": 3, "status": 200, "interim": [], "exp_hs": [("content-length", "9000")], "exp_body": list(body),
+                                "complete": True, "trailing": False, "sizes": [len(head), p_, "..."], "acc": [], "mode": "cl"}))
     return cases
 
 
